@@ -1163,6 +1163,16 @@ Lemma leaf_mismatch_untouched b ws t x buf : native_in t (ser_base_types b) = fa
   ser_leaf b ws t x buf = (buf, Some (KE SE_MismatchedType)).
 Proof. intros H. unfold ser_leaf. rewrite H. reflexivity. Qed.
 
+Lemma chunks_bytes_acc (cs : list bytes) (acc : bytes) :
+  fold_left (fun acc c => c ++ acc) cs acc = concat (rev cs) ++ acc.
+Proof.
+  revert acc. induction cs as [|c cs IH]; intros acc; [reflexivity|].
+  cbn [fold_left rev]. rewrite IH, concat_snoc, <- app_assoc. reflexivity.
+Qed.
+
+Lemma chunks_bytes_rev cs : chunks_bytes cs = concat (rev cs).
+Proof. unfold chunks_bytes. rewrite chunks_bytes_acc. apply app_nil_r. Qed.
+
 Lemma add_value_chunks_eq cs cnt k t v :
   add_value {| sv_bytes := chunks_bytes cs; sv_count := cnt |} k t v =
   match add_value_chunks cs cnt k t v with
@@ -1172,7 +1182,7 @@ Proof.
   unfold add_value, add_value_chunks. cbn [sv_bytes sv_count]. destruct (cnt =? u16_max); [reflexivity|].
   rewrite ser_buf_out. unfold ser_out. destruct (ser_buf k true t v []) as [o [e|]]; cbn [fst snd].
   - now rewrite resize_app.
-  - unfold chunks_bytes. cbn [rev]. now rewrite concat_snoc.
+  - rewrite !chunks_bytes_rev. cbn [rev]. now rewrite concat_snoc.
 Qed.
 
 Lemma row_write_spec cols : forall vals buf cnt b cnt' ,
@@ -1223,4 +1233,559 @@ Theorem from_row_refuses cols vals k t v i : nth_error cols i = Some t -> nth_er
 Proof.
   intros Hc Hv Hf. unfold from_row. destruct (negb _); [eauto|].
   destruct (row_write_fails k t v Hf cols vals i [] 0 Hc Hv) as (b & c & e & ->). eauto.
+Qed.
+
+(* ====================================================================================== *)
+(* 7. The dynamic carrier: a CqlValue is accepted iff it is a value of the column type      *)
+(* ====================================================================================== *)
+
+Section errs_in.
+  Variable Q : kerr -> Prop.
+  Hypothesis Qov : Q (KE SE_SizeOverflow).
+  Hypothesis Qtm : Q (KE SE_TooManyElements).
+
+  Definition errs_in (w : writer) : Prop := forall e, snd (w []) = Some e -> Q e.
+
+  Lemma in_ok : errs_in w_ok. Proof. intros e H. discriminate. Qed.
+  Lemma in_append c : errs_in (w_append c). Proof. intros e H. discriminate. Qed.
+
+  Lemma in_then w k : frame k -> errs_in w -> errs_in k -> errs_in (w_then w k).
+  Proof.
+    intros Fk Hw Hk e. unfold w_then. destruct (w []) as [o [e'|]] eqn:E.
+    - cbn [snd]. intros H. apply Hw. rewrite E. exact H.
+    - rewrite (snd_frame k o Fk). apply Hk.
+  Qed.
+
+  Lemma in_loop {A} (f : A -> writer) l :
+    (forall x, In x l -> frame (f x) /\ errs_in (f x)) -> errs_in (w_loop f l).
+  Proof.
+    induction l as [|x r IH]; intros H; cbn [w_loop]; [apply in_ok|].
+    apply in_then.
+    - apply frame_loop. intros y Hy. apply H. now right.
+    - apply H. now left.
+    - apply IH. intros y Hy. apply H. now right.
+  Qed.
+
+  Lemma in_set_value ws c : errs_in (w_set_value ws c).
+  Proof.
+    intros e. unfold w_set_value. destruct (i32_max <? blen c); cbn [snd]; [|discriminate].
+    intros H. inversion H. exact Qov.
+  Qed.
+
+  Lemma in_builder ws body : frame body -> errs_in body -> errs_in (w_builder ws body).
+  Proof.
+    intros Fb Hb e. rewrite (builder_eq ws body [] Fb).
+    assert (G : errs_in (w_then (builder_pre ws) body)).
+    { apply in_then; [exact Fb| |exact Hb]. destruct ws; [apply in_append|apply in_ok]. }
+    destruct (w_then (builder_pre ws) body []) as [o [e'|]] eqn:E; cbn [snd].
+    - intros H. apply G. rewrite E. exact H.
+    - destruct ws; [|discriminate]. destruct (i32_max <? blen o - 4); cbn [snd]; [|discriminate].
+      intros H. inversion H. exact Qov.
+  Qed.
+
+  Lemma in_fail_tm : errs_in (w_fail (KE SE_TooManyElements)).
+  Proof. intros e H. cbn in H. inversion H. exact Qtm. Qed.
+
+  Lemma in_sequence {A} ws (f : A -> writer) l :
+    (forall x, In x l -> frame (f x) /\ errs_in (f x)) -> errs_in (w_sequence ws f l).
+  Proof.
+    intros H. unfold w_sequence.
+    destruct (i32_max <? N.of_nat (List.length l)).
+    - apply in_builder; [apply (frame_fail (KE SE_TooManyElements))|apply in_fail_tm].
+    - apply in_builder.
+      + apply (frame_then (w_append _) (w_loop f l)); [apply frame_append|apply frame_loop; intros; now apply H].
+      + apply (in_then (w_append _) (w_loop f l)); [apply frame_loop; intros; now apply H|apply in_append|apply in_loop, H].
+  Qed.
+
+  Lemma in_mapping {A B} ws (fk : A -> writer) (fv : B -> writer) l :
+    (forall kv, In kv l -> (frame (fk (fst kv)) /\ errs_in (fk (fst kv))) /\ (frame (fv (snd kv)) /\ errs_in (fv (snd kv)))) ->
+    errs_in (w_mapping ws fk fv l).
+  Proof.
+    intros H. unfold w_mapping.
+    assert (FL : frame (w_loop (fun kv => w_then (fk (fst kv)) (fv (snd kv))) l)).
+    { apply frame_loop. intros kv Hkv. destruct (H kv Hkv) as [[? ?] [? ?]]. now apply frame_then. }
+    destruct (i32_max <? N.of_nat (List.length l)).
+    - apply in_builder; [apply (frame_fail (KE SE_TooManyElements))|apply in_fail_tm].
+    - apply in_builder.
+      + apply (frame_then (w_append _)); [apply frame_append|exact FL].
+      + apply (in_then (w_append _)); [exact FL|apply in_append|].
+        apply in_loop. intros kv Hkv. destruct (H kv Hkv) as [[? ?] [? ?]]. split; [now apply frame_then|now apply in_then].
+  Qed.
+
+  Lemma in_var_elem w : errs_in w -> errs_in (w_var_elem w).
+  Proof.
+    intros H e. unfold w_var_elem. destruct (w []) as [eb [e'|]] eqn:E; cbn [snd]; [|discriminate].
+    intros H'. apply H. rewrite E. exact H'.
+  Qed.
+
+  (* a vector value with the right number of elements *)
+  Lemma in_vector {A} ws fixed dim (f : A -> writer) l : (N.of_nat (List.length l) =? dim) = true ->
+    (forall x, In x l -> frame (f x) /\ errs_in (f x)) -> errs_in (w_vector ws fixed dim f l).
+  Proof.
+    intros Hd H. unfold w_vector. rewrite Hd. cbn [negb].
+    apply in_builder.
+    - apply frame_loop. intros x Hx. destruct fixed; [now apply H|apply frame_var_elem].
+    - apply in_loop. intros x Hx. destruct fixed; [now apply H|]. split; [apply frame_var_elem|apply in_var_elem; now apply H].
+  Qed.
+
+  Lemma in_ser_leaf b ws t x : native_in t (ser_base_types b) = true -> base_payload b x = true ->
+    errs_in (ser_leaf b ws t x).
+  Proof.
+    intros Ht Hp. unfold ser_leaf. rewrite Ht, Hp. cbn [negb].
+    destruct (leaf_bytes x) as [c|] eqn:E.
+    - destruct (uses_builder b); [apply in_builder; [apply frame_append|apply in_append]|apply in_set_value].
+    - exfalso. apply (leaf_bytes_payload x); [|exact E]. unfold base_payload in Hp. destruct (payload_kind x); congruence.
+  Qed.
+End errs_in.
+
+Definition size_errs := errs_in (fun e => is_size_err e = true).
+
+Fixpoint fits_udt_go (f : ctype -> cval -> bool) (fts : list (name * ctype)) (st : list (name * option cval)) : bool :=
+  match fts with
+  | [] => is_nil st
+  | (fname, ft) :: r =>
+      match udt_field_value fname st with None => true | Some x => f ft x end && fits_udt_go f r (remove_name fname st)
+  end.
+Fixpoint fits_tuple_go (f : ctype -> cval -> bool) (ts : list ctype) (l : list (option cval)) : bool :=
+  match ts, l with
+  | et :: ts', ox :: l' => match ox with None => true | Some x => f et x end && fits_tuple_go f ts' l'
+  | _, _ => true
+  end.
+
+Lemma dyn_fits_udt ks' nm' fts ks nm fields :
+  dyn_fits (TUdt ks' nm' fts) (CUdt ks nm fields) =
+  bytes_eqb ks ks' && bytes_eqb nm nm' && fits_udt_go dyn_fits fts fields.
+Proof.
+  cbn [dyn_fits]. f_equal. revert fields. induction fts as [|[fname ft] r IH]; intros st; [reflexivity|].
+  cbn [fits_udt_go]. rewrite <- IH. reflexivity.
+Qed.
+Lemma dyn_fits_tuple ts l :
+  dyn_fits (TTuple ts) (CTuple l) = (List.length l <=? List.length ts)%nat && fits_tuple_go dyn_fits ts l.
+Proof.
+  cbn [dyn_fits]. f_equal. revert l. induction ts as [|et ts' IH]; intros l; [reflexivity|].
+  destruct l as [|ox l']; [reflexivity|]. cbn [fits_tuple_go]. rewrite <- IH. reflexivity.
+Qed.
+
+Definition is_leaf (v : cval) : bool := match payload_kind v with Some _ => true | None => false end.
+
+Lemma leaf_payload_ok v : is_leaf v = true -> base_payload (dyn_base v) v = true.
+Proof. destruct v; try discriminate; reflexivity. Qed.
+
+Lemma ser_dyn_leaf ws t v : is_leaf v = true -> ser_dyn ws t v = ser_leaf (dyn_base v) ws t v.
+Proof. destruct v; try discriminate; intros _; destruct t; reflexivity. Qed.
+
+Lemma dyn_fits_leaf t v : is_leaf v = true -> dyn_fits t v = native_in t (ser_base_types (dyn_base v)).
+Proof.
+  destruct v; try discriminate; intros _; destruct t as [n| | | | | |]; try reflexivity; destruct n; reflexivity.
+Qed.
+
+
+Lemma size_dyn_tuple_go (f : ctype -> cval -> writer) (g : ctype -> cval -> bool) ts :
+  Forall (fun et => forall x, frame (f et x) /\ (g et x = true -> size_errs (f et x))) ts ->
+  forall l, fits_tuple_go g ts l = true -> size_errs (dyn_tuple_go f ts l).
+Proof.
+  induction 1 as [|et ts' Het Hts IH]; intros l Hl; [apply in_ok|].
+  destruct l as [|ox l']; [apply in_ok|]. cbn [dyn_tuple_go fits_tuple_go] in *. apply andb_prop in Hl as [H1 H2].
+  apply in_then; [apply frame_dyn_tuple_go; eapply Forall_impl; [|exact Hts]; intros a Ha x; apply Ha| |now apply IH].
+  destruct ox; [now apply Het|apply in_append].
+Qed.
+
+Lemma size_dyn_udt_go (f : ctype -> cval -> writer) (g : ctype -> cval -> bool) fts :
+  Forall (fun ft => forall x, frame (f (snd ft) x) /\ (g (snd ft) x = true -> size_errs (f (snd ft) x))) fts ->
+  forall st, fits_udt_go g fts st = true -> size_errs (dyn_udt_go f fts st).
+Proof.
+  induction 1 as [|[fname ft] r Hft Hr IH]; intros st Hs; cbn [dyn_udt_go fits_udt_go] in *.
+  - rewrite Hs. apply in_ok.
+  - apply andb_prop in Hs as [H1 H2].
+    apply in_then; [apply frame_dyn_udt_go; eapply Forall_impl; [|exact Hr]; intros a Ha x; apply Ha| |now apply IH].
+    destruct (udt_field_value fname st); [now apply Hft|apply in_append].
+Qed.
+
+(* a value of the type is never refused by a type check (nor by the vector length check): what can
+   still fail is a size beyond the i32 limits of the wire format *)
+Theorem dyn_accept t : forall ws v, dyn_fits t v = true -> size_errs (ser_dyn ws t v).
+Proof.
+  induction t as [n|e IHe|e IHe|k e IHk IHe|ts IHts|ks' nm' fts IHfs|e d IHe] using ctype_ind'; intros ws v Hf.
+  all: destruct (is_leaf v) eqn:El;
+    [rewrite ser_dyn_leaf by exact El; rewrite dyn_fits_leaf in Hf by exact El;
+     apply in_ser_leaf; auto using leaf_payload_ok|].
+  all: destruct v; try discriminate El; try discriminate Hf.
+  all: try (cbn [ser_dyn dyn_fits] in *; rewrite Hf; apply in_set_value; reflexivity).
+  all: try (cbn [ser_dyn dyn_fits] in *; rewrite forallb_forall in Hf; apply in_sequence; try reflexivity;
+            intros x Hx; split; [apply frame_ser_dyn|apply IHe; auto]).
+  - cbn [ser_dyn dyn_fits] in *. rewrite forallb_forall in Hf. apply in_mapping; try reflexivity. intros kv Hkv.
+    specialize (Hf kv Hkv). apply andb_prop in Hf as [H1 H2].
+    split; (split; [apply frame_ser_dyn|]); [apply IHk|apply IHe]; auto.
+  - rewrite ser_dyn_tuple. rewrite dyn_fits_tuple in Hf. apply andb_prop in Hf as [Hl Hf].
+    assert ((List.length ts <? List.length l)%nat = false) as -> by (apply Nat.ltb_ge, Nat.leb_le, Hl).
+    apply in_builder; try reflexivity.
+    + apply frame_dyn_tuple_go, Forall_forall. intros; apply frame_ser_dyn.
+    + apply size_dyn_tuple_go with (g := dyn_fits); [|exact Hf].
+      eapply Forall_impl; [|exact IHts]. intros a Ha x. split; [apply frame_ser_dyn|apply Ha].
+  - rewrite ser_dyn_udt. rewrite dyn_fits_udt in Hf. apply andb_prop in Hf as [Hn Hf]. rewrite Hn. cbn [negb].
+    apply in_builder; try reflexivity.
+    + apply frame_dyn_udt_go, Forall_forall. intros; apply frame_ser_dyn.
+    + apply size_dyn_udt_go with (g := dyn_fits); [|exact Hf].
+      eapply Forall_impl; [|exact IHfs]. intros a Ha x. split; [apply frame_ser_dyn|apply Ha].
+  - cbn [ser_dyn dyn_fits] in *. apply andb_prop in Hf as [Hd Hf]. apply andb_prop in Hd as [Hd _]. rewrite forallb_forall in Hf.
+    apply in_vector; try reflexivity; [exact Hd|]. intros x Hx. split; [apply frame_ser_dyn|apply IHe; auto].
+  - cbn [ser_dyn dyn_fits] in *. apply andb_prop in Hf as [Hd Hf]. apply andb_prop in Hd as [Hd _]. rewrite forallb_forall in Hf.
+    apply in_vector; try reflexivity; [exact Hd|]. intros x Hx. split; [apply frame_ser_dyn|apply IHe; auto].
+  - cbn [ser_dyn dyn_fits] in *. apply andb_prop in Hf as [Hd Hf]. apply andb_prop in Hd as [Hd _]. rewrite forallb_forall in Hf.
+    apply in_vector; try reflexivity; [exact Hd|]. intros x Hx. split; [apply frame_ser_dyn|apply IHe; auto].
+Qed.
+
+Lemma forallb_false_ex {A} (f : A -> bool) l : forallb f l = false -> exists x, In x l /\ f x = false.
+Proof.
+  induction l as [|x r IH]; [discriminate|]. cbn [forallb]. intros H. apply andb_false_elim in H as [H|H].
+  - exists x. split; [now left|exact H].
+  - destruct (IH H) as (y & Hy & Hf). exists y. split; [now right|exact Hf].
+Qed.
+
+Fixpoint known_udt_go (f : ctype -> cval -> bool) (fts : list (name * ctype)) (st : list (name * option cval)) : bool :=
+  match fts with
+  | [] => false
+  | (fname, ft) :: r =>
+      match udt_field_value fname st with None => false | Some x => f ft x end || known_udt_go f r (remove_name fname st)
+  end.
+Fixpoint known_tuple_go (f : ctype -> cval -> bool) (ts : list ctype) (l : list (option cval)) : bool :=
+  match ts, l with
+  | et :: ts', ox :: l' => match ox with None => false | Some x => f et x end || known_tuple_go f ts' l'
+  | _, _ => false
+  end.
+Lemma dyn_known_udt ks' nm' fts ks nm fields :
+  dyn_known (TUdt ks' nm' fts) (CUdt ks nm fields) = known_udt_go dyn_known fts fields.
+Proof.
+  cbn [dyn_known]. revert fields. induction fts as [|[fname ft] r IH]; intros st; [reflexivity|].
+  cbn [known_udt_go]. rewrite <- IH. reflexivity.
+Qed.
+Lemma dyn_known_tuple ts l : dyn_known (TTuple ts) (CTuple l) = known_tuple_go dyn_known ts l.
+Proof.
+  cbn [dyn_known]. revert l. induction ts as [|et ts' IH]; intros l; [reflexivity|].
+  destruct l as [|ox l']; [reflexivity|]. cbn [known_tuple_go]. rewrite <- IH. reflexivity.
+Qed.
+
+Lemma fails_dyn_tuple_go (f : ctype -> cval -> writer) (g kc : ctype -> cval -> bool) ts :
+  Forall (fun et => forall x, frame (f et x) /\ (g et x = false -> kc et x = false -> fails (f et x))) ts ->
+  forall l, fits_tuple_go g ts l = false -> known_tuple_go kc ts l = false -> fails (dyn_tuple_go f ts l).
+Proof.
+  induction 1 as [|et ts' Het Hts IH]; intros l Hl Hk; [discriminate|].
+  destruct l as [|ox l']; [discriminate|]. cbn [dyn_tuple_go fits_tuple_go known_tuple_go] in *.
+  apply orb_false_elim in Hk as [K1 K2]. apply andb_false_elim in Hl as [H1|H2].
+  - apply fails_then_l. destruct ox; [now apply Het|discriminate].
+  - apply fails_then_r; [|now apply IH]. apply frame_dyn_tuple_go. eapply Forall_impl; [|exact Hts]. intros a Ha x; apply Ha.
+Qed.
+
+Lemma fails_dyn_udt_go (f : ctype -> cval -> writer) (g kc : ctype -> cval -> bool) fts :
+  Forall (fun ft => forall x, frame (f (snd ft) x) /\ (g (snd ft) x = false -> kc (snd ft) x = false -> fails (f (snd ft) x))) fts ->
+  forall st, fits_udt_go g fts st = false -> known_udt_go kc fts st = false -> fails (dyn_udt_go f fts st).
+Proof.
+  induction 1 as [|[fname ft] r Hft Hr IH]; intros st Hs Hk; cbn [dyn_udt_go fits_udt_go known_udt_go] in *.
+  - rewrite Hs. apply fails_fail.
+  - apply orb_false_elim in Hk as [K1 K2]. apply andb_false_elim in Hs as [H1|H2].
+    + apply fails_then_l. destruct (udt_field_value fname st); [now apply Hft|discriminate].
+    + apply fails_then_r; [|now apply IH]. apply frame_dyn_udt_go. eapply Forall_impl; [|exact Hr]. intros a Ha x; apply Ha.
+Qed.
+
+(* a CqlValue that is not a value of the column type - at whatever depth the misfit sits - is
+   refused, outside the known class (an Empty element of a vector with fixed-width elements) *)
+Theorem dyn_reject t : forall ws v, dyn_fits t v = false -> dyn_known t v = false -> fails (ser_dyn ws t v).
+Proof.
+  induction t as [n|e IHe|e IHe|k e IHk IHe|ts IHts|ks' nm' fts IHfs|e d IHe] using ctype_ind'; intros ws v Hf Hk.
+  all: destruct (is_leaf v) eqn:El;
+    [rewrite ser_dyn_leaf by exact El; rewrite dyn_fits_leaf in Hf by exact El; apply fails_ser_leaf; exact Hf|].
+  all: destruct v; try discriminate El; try discriminate Hf.
+  all: try (cbn [ser_dyn dyn_fits] in *; try rewrite Hf; apply fails_fail).
+  all: try (cbn [ser_dyn dyn_fits dyn_known] in *; apply forallb_false_ex in Hf as (x & Hx & Hfx);
+            apply fails_sequence with x; [intros; apply frame_ser_dyn|exact Hx|apply IHe; [exact Hfx|exact (existsb_false _ _ Hk x Hx)]]).
+  - cbn [ser_dyn dyn_fits dyn_known] in *. apply forallb_false_ex in Hf as (kv & Hkv & Hfx).
+    pose proof (existsb_false _ _ Hk kv Hkv) as Hkk. cbn beta in Hkk. apply orb_false_elim in Hkk as [K1 K2].
+    apply fails_mapping with kv; [intros; split; apply frame_ser_dyn|exact Hkv|].
+    apply andb_false_elim in Hfx as [H|H]; [left; apply IHk; assumption|right; apply IHe; assumption].
+  - rewrite ser_dyn_tuple. rewrite dyn_fits_tuple in Hf. rewrite dyn_known_tuple in Hk.
+    destruct (List.length ts <? List.length l)%nat eqn:E; [apply fails_fail|].
+    apply Nat.ltb_ge, Nat.leb_le in E. rewrite E in Hf. cbn [andb] in Hf.
+    apply fails_builder; [apply frame_dyn_tuple_go, Forall_forall; intros; apply frame_ser_dyn|].
+    apply fails_dyn_tuple_go with (g := dyn_fits) (kc := dyn_known); [|exact Hf|exact Hk].
+    eapply Forall_impl; [|exact IHts]. intros a Ha x. split; [apply frame_ser_dyn|apply Ha].
+  - rewrite ser_dyn_udt. rewrite dyn_fits_udt in Hf. rewrite dyn_known_udt in Hk.
+    destruct (bytes_eqb ks ks' && bytes_eqb nm nm'); cbn [negb andb] in *; [|apply fails_fail].
+    apply fails_builder; [apply frame_dyn_udt_go, Forall_forall; intros; apply frame_ser_dyn|].
+    apply fails_dyn_udt_go with (g := dyn_fits) (kc := dyn_known); [|exact Hf|exact Hk].
+    eapply Forall_impl; [|exact IHfs]. intros a Ha x. split; [apply frame_ser_dyn|apply Ha].
+  - cbn [ser_dyn dyn_fits dyn_known] in *. apply orb_false_elim in Hk as [K1 K2].
+    destruct (N.of_nat (List.length l) =? d) eqn:Ed; cbn [andb] in *; [|unfold w_vector; rewrite Ed; apply fails_fail].
+    rewrite K1 in Hf. cbn [negb andb] in Hf. apply forallb_false_ex in Hf as (x & Hx & Hfx).
+    apply fails_vector with x; [intros; apply frame_ser_dyn|exact Hx|apply IHe; [exact Hfx|exact (existsb_false _ _ K2 x Hx)]].
+  - cbn [ser_dyn dyn_fits dyn_known] in *. apply orb_false_elim in Hk as [K1 K2].
+    destruct (N.of_nat (List.length l) =? d) eqn:Ed; cbn [andb] in *; [|unfold w_vector; rewrite Ed; apply fails_fail].
+    rewrite K1 in Hf. cbn [negb andb] in Hf. apply forallb_false_ex in Hf as (x & Hx & Hfx).
+    apply fails_vector with x; [intros; apply frame_ser_dyn|exact Hx|apply IHe; [exact Hfx|exact (existsb_false _ _ K2 x Hx)]].
+  - cbn [ser_dyn dyn_fits dyn_known] in *. apply orb_false_elim in Hk as [K1 K2].
+    destruct (N.of_nat (List.length l) =? d) eqn:Ed; cbn [andb] in *; [|unfold w_vector; rewrite Ed; apply fails_fail].
+    rewrite K1 in Hf. cbn [negb andb] in Hf. apply forallb_false_ex in Hf as (x & Hx & Hfx).
+    apply fails_vector with x; [intros; apply frame_ser_dyn|exact Hx|apply IHe; [exact Hfx|exact (existsb_false _ _ K2 x Hx)]].
+Qed.
+
+(* ====================================================================================== *)
+(* 8. The buffer-level dynamic serialiser is Model/Cql.v's [ser_value]                      *)
+(* ====================================================================================== *)
+(* ... so the C01 theorems (conformance to the protocol, round trip, totality on values of the
+   type) speak about the bytes that add_value appends for a CqlValue. *)
+
+Definition out_of (ws : bool) (c : bytes) : bytes := if ws then framed c else c.
+
+(* [r] is what the functional model returns, [w] the writer of the buffer model *)
+Definition agrees (ws : bool) (r : sres) (w : writer) : Prop :=
+  match r with
+  | Ok c => w [] = (out_of ws c, None)
+  | Err e => snd (w []) = Some (KE e)
+  end.
+
+(* IpAddr, Uuid, CqlTimeuuid hold 4 / 16 bytes in Rust; the dynamic value type of the model holds
+   any byte string, and Cql.v does not bound it (the Rust code `unwrap`s set_value there) *)
+Definition small_leaf (x : cval) : bool :=
+  match x with CInet b | CUuid b | CTimeuuid b => blen b <=? i32_max | _ => true end.
+
+Fixpoint all_leaves (P : cval -> bool) (v : cval) {struct v} : bool :=
+  match v with
+  | CList l | CSet l | CVector l => forallb (all_leaves P) l
+  | CMap l => forallb (fun kv => all_leaves P (fst kv) && all_leaves P (snd kv)) l
+  | CTuple l => forallb (fun ox => match ox with Some x => all_leaves P x | None => true end) l
+  | CUdt _ _ fs => forallb (fun f => match snd f with Some x => all_leaves P x | None => true end) fs
+  | _ => P v
+  end.
+
+Lemma builder_pre_body ws body : frame body ->
+  w_then (builder_pre ws) body [] = ((if ws then placeholder else []) ++ fst (body []), snd (body [])).
+Proof.
+  intros Fb. unfold w_then. destruct ws; cbn [builder_pre w_append w_ok app].
+  - rewrite (Fb placeholder). destruct (body []) as [o [e|]]; reflexivity.
+  - destruct (body []) as [o [e|]]; reflexivity.
+Qed.
+
+Lemma agrees_builder ws r body : frame body -> agrees false r body ->
+  agrees ws (rbind r (finish ws)) (w_builder ws body).
+Proof.
+  intros Fb Hr. unfold agrees in *. rewrite (builder_eq ws body [] Fb), (builder_pre_body ws body Fb).
+  destruct r as [c|e]; cbn [rbind out_of] in *.
+  - rewrite Hr. cbn [fst snd]. unfold finish. destruct ws; cbn [andb app]; [|reflexivity].
+    assert (L : blen (placeholder ++ c) - 4 = blen c).
+    { rewrite blen_app. unfold blen at 1. rewrite placeholder_length. lia. }
+    rewrite L. destruct (i32_max <? blen c); reflexivity.
+  - destruct (body []) as [o [e'|]]; cbn [fst snd] in *; [|discriminate]. rewrite Hr. reflexivity.
+Qed.
+
+Lemma agrees_loop {A} (g : A -> sres) (f : A -> writer) l :
+  (forall x, In x l -> frame (f x) /\ agrees false (g x) (f x)) ->
+  agrees false (ser_concat g l) (w_loop f l).
+Proof.
+  induction l as [|x r IH]; intros H; [reflexivity|].
+  cbn [ser_concat w_loop]. destruct (H x (or_introl eq_refl)) as [Fx Hx].
+  assert (IH' : agrees false (ser_concat g r) (w_loop f r)) by (apply IH; intros; apply H; now right).
+  assert (FL : frame (w_loop f r)) by (apply frame_loop; intros; apply H; now right).
+  unfold agrees, w_then in *. destruct (g x) as [b|e]; cbn [rbind out_of] in *.
+  - rewrite Hx. rewrite (FL b). destruct (ser_concat g r) as [bs|e]; cbn [rbind out_of] in *.
+    + rewrite IH'. reflexivity.
+    + cbn [snd]. exact IH'.
+  - destruct (f x []) as [o [e'|]]; cbn [snd] in *; [exact Hx|discriminate].
+Qed.
+
+Lemma agrees_sized g f x : agrees true (g x) (f x) -> agrees false (sub_sized g x) (f x).
+Proof. unfold agrees, sub_sized. destruct (g x); cbn [rbind out_of]; auto. Qed.
+
+Lemma agrees_sequence ws (g : cval -> sres) (f : cval -> writer) l :
+  (forall x, In x l -> frame (f x) /\ agrees true (g x) (f x)) ->
+  agrees ws (ser_sequence ws g l) (w_sequence ws f l).
+Proof.
+  intros H. unfold ser_sequence, w_sequence. destruct (i32_max <? N.of_nat (List.length l)) eqn:E.
+  - apply (agrees_builder ws (Err SE_TooManyElements) (w_fail (KE SE_TooManyElements))); [apply frame_fail|reflexivity].
+  - replace (rbind (ser_concat (sub_sized g) l) (fun bs => finish ws (be32 (N.of_nat (List.length l)) ++ bs)))
+      with (rbind (rbind (ser_concat (sub_sized g) l) (fun bs => Ok (be32 (N.of_nat (List.length l)) ++ bs))) (finish ws))
+      by (destruct (ser_concat (sub_sized g) l); reflexivity).
+    apply agrees_builder.
+    + apply (frame_then (w_append _) (w_loop f l)); [apply frame_append|apply frame_loop; intros; now apply H].
+    + assert (G : agrees false (ser_concat (sub_sized g) l) (w_loop f l)).
+      { apply agrees_loop. intros x Hx. destruct (H x Hx). split; [assumption|now apply agrees_sized]. }
+      assert (FL : frame (w_loop f l)) by (apply frame_loop; intros; now apply H).
+      unfold agrees, w_then, w_append in *. cbn [app]. rewrite (FL (be32 _)).
+      destruct (ser_concat (sub_sized g) l) as [bs|e]; cbn [rbind out_of] in *.
+      * rewrite G. reflexivity.
+      * cbn [snd]. exact G.
+Qed.
+
+Lemma agrees_then_app r1 r2 w1 w2 : frame w2 -> agrees false r1 w1 -> agrees false r2 w2 ->
+  agrees false (rbind r1 (fun a => rbind r2 (fun b => Ok (a ++ b)))) (w_then w1 w2).
+Proof.
+  intros F2 H1 H2. unfold agrees, w_then in *. destruct r1 as [a|e]; cbn [rbind out_of] in *.
+  - rewrite H1, (F2 a). destruct r2 as [b|e]; cbn [rbind out_of] in *.
+    + rewrite H2. reflexivity.
+    + cbn [snd]. exact H2.
+  - destruct (w1 []) as [o [e'|]]; cbn [snd] in *; [exact H1|discriminate].
+Qed.
+
+Lemma agrees_mapping ws (gk gv : cval -> sres) (fk fv : cval -> writer) l :
+  (forall kv, In kv l -> (frame (fk (fst kv)) /\ agrees true (gk (fst kv)) (fk (fst kv))) /\
+                         (frame (fv (snd kv)) /\ agrees true (gv (snd kv)) (fv (snd kv)))) ->
+  agrees ws (ser_mapping ws gk gv l) (w_mapping ws fk fv l).
+Proof.
+  intros H. unfold ser_mapping, w_mapping. destruct (i32_max <? N.of_nat (List.length l)) eqn:E.
+  - apply (agrees_builder ws (Err SE_TooManyElements) (w_fail (KE SE_TooManyElements))); [apply frame_fail|reflexivity].
+  - set (g := fun kv : cval * cval => rbind (sub_sized gk (fst kv)) (fun a => rbind (sub_sized gv (snd kv)) (fun b => Ok (a ++ b)))).
+    set (f := fun kv : cval * cval => w_then (fk (fst kv)) (fv (snd kv))).
+    replace (rbind (ser_concat g l) (fun bs => finish ws (be32 (N.of_nat (List.length l)) ++ bs)))
+      with (rbind (rbind (ser_concat g l) (fun bs => Ok (be32 (N.of_nat (List.length l)) ++ bs))) (finish ws))
+      by (destruct (ser_concat g l); reflexivity).
+    assert (FL : frame (w_loop f l)).
+    { apply frame_loop. intros kv Hkv. destruct (H kv Hkv) as [[? ?] [? ?]]. unfold f. now apply frame_then. }
+    apply agrees_builder.
+    + apply (frame_then (w_append _)); [apply frame_append|exact FL].
+    + assert (G : agrees false (ser_concat g l) (w_loop f l)).
+      { apply agrees_loop. intros kv Hkv. destruct (H kv Hkv) as [[F1 H1] [F2 H2]]. split.
+        - unfold f. now apply frame_then.
+        - unfold g, f. apply agrees_then_app; [exact F2|now apply agrees_sized|now apply agrees_sized]. }
+      unfold agrees, w_then, w_append in *. cbn [app]. rewrite (FL (be32 _)).
+      destruct (ser_concat g l) as [bs|e]; cbn [rbind out_of] in *.
+      * rewrite G. reflexivity.
+      * cbn [snd]. exact G.
+Qed.
+
+Lemma agrees_var_elem g f x : agrees false (g x) (f x) -> agrees false (vec_var_elem g x) (w_var_elem (f x)).
+Proof.
+  unfold agrees, vec_var_elem, w_var_elem. destruct (g x) as [b|e]; cbn [rbind out_of]; intros H.
+  - rewrite H. reflexivity.
+  - destruct (f x []) as [o [e'|]]; cbn [snd] in *; [exact H|discriminate].
+Qed.
+
+Lemma agrees_vector ws fixed dim (g : cval -> sres) (f : cval -> writer) l :
+  (forall x, In x l -> frame (f x) /\ agrees false (g x) (f x)) ->
+  agrees ws (ser_vector ws fixed dim g l) (w_vector ws fixed dim f l).
+Proof.
+  intros H. unfold ser_vector, w_vector. destruct (negb _); [reflexivity|].
+  apply agrees_builder.
+  - apply frame_loop. intros x Hx. destruct fixed; [now apply H|apply frame_var_elem].
+  - destruct fixed.
+    + apply agrees_loop. exact H.
+    + apply (agrees_loop (vec_var_elem g) (fun x => w_var_elem (f x))). intros x Hx. split; [apply frame_var_elem|].
+      apply agrees_var_elem. now apply H.
+Qed.
+
+Lemma agrees_opt (g : cval -> sres) (f : cval -> writer) ox :
+  (forall x, ox = Some x -> agrees true (g x) (f x)) ->
+  agrees false (sub_sized_opt g ox) (match ox with None => w_append null_marker | Some x => f x end).
+Proof.
+  destruct ox as [x|]; intros H; [|reflexivity]. cbn [sub_sized_opt]. apply agrees_sized. now apply H.
+Qed.
+
+Lemma agrees_tuple_go ts : forall l,
+  Forall (fun et => forall x, all_leaves small_leaf x = true -> agrees true (ser_value true et x) (ser_dyn true et x)) ts ->
+  forallb (fun ox => match ox with Some x => all_leaves small_leaf x | None => true end) l = true ->
+  agrees false (ser_tuple_go (ser_value true) ts l) (dyn_tuple_go (ser_dyn true) ts l).
+Proof.
+  induction ts as [|et ts' IH]; intros l HF Hl; [reflexivity|].
+  destruct l as [|ox l']; [reflexivity|]. cbn [ser_tuple_go dyn_tuple_go forallb] in *.
+  apply andb_prop in Hl as [H1 H2]. inversion HF as [|? ? Het Hts]; subst.
+  apply agrees_then_app.
+  - apply frame_dyn_tuple_go, Forall_forall. intros; apply frame_ser_dyn.
+  - apply agrees_opt. intros x ->. now apply Het.
+  - now apply IH.
+Qed.
+
+Lemma udt_field_value_in fname st x : udt_field_value fname st = Some x -> In (Some x) (map snd st).
+Proof.
+  unfold udt_field_value. destruct (lookup_last fname st) as [[y|]|] eqn:E; try discriminate. intros H. inversion H; subst.
+  induction st as [|[m z] r IH]; [discriminate|]. cbn [lookup_last] in E. cbn [map snd In].
+  destruct (lookup_last fname r) as [w|] eqn:E2.
+  - right. apply IH. exact E.
+  - destruct (bytes_eqb fname m); [|discriminate]. left. congruence.
+Qed.
+
+Lemma remove_name_incl fname (st : list (name * option cval)) y : In y (map snd (remove_name fname st)) -> In y (map snd st).
+Proof.
+  unfold remove_name. induction st as [|[m z] r IH]; [auto|]. cbn [filter fst].
+  destruct (negb (bytes_eqb fname m)); cbn [map snd In]; intuition.
+Qed.
+
+Lemma agrees_udt_go fts : forall st,
+  Forall (fun ft => forall x, all_leaves small_leaf x = true -> agrees true (ser_value true (snd ft) x) (ser_dyn true (snd ft) x)) fts ->
+  (forall x, In (Some x) (map snd st) -> all_leaves small_leaf x = true) ->
+  agrees false (ser_udt_go (ser_value true) fts st) (dyn_udt_go (ser_dyn true) fts st).
+Proof.
+  induction fts as [|[fname ft] r IH]; intros st HF Hst.
+  - cbn [ser_udt_go dyn_udt_go]. destruct (is_nil st); reflexivity.
+  - cbn [ser_udt_go dyn_udt_go]. inversion HF as [|? ? Hft Hr]; subst. apply agrees_then_app.
+    + apply frame_dyn_udt_go, Forall_forall. intros; apply frame_ser_dyn.
+    + apply agrees_opt. intros x Hx. apply Hft. apply Hst. now apply (udt_field_value_in fname).
+    + apply IH; [exact Hr|]. intros x Hx. apply Hst. now apply (remove_name_incl fname).
+Qed.
+
+
+Lemma leaf_len_ok v c : is_leaf v = true -> small_leaf v = true -> leaf_bytes v = Some c ->
+  match v with CAscii _ | CText _ | CBlob _ | CVarint _ | CDecimal _ _ => True | _ => blen c <= i32_max end.
+Proof.
+  unfold blen.
+  destruct v; try discriminate; cbn [leaf_bytes small_leaf]; intros _ Hs Hc; apply some_inj in Hc; subst; auto.
+  all: try (apply N.leb_le in Hs; exact Hs).
+  all: try (rewrite ?enc_signed_length, ?be_enc_length; unfold i32_max; cbn [List.length]; lia).
+  rewrite !app_length. pose proof (vint_encode_length months). pose proof (vint_encode_length days).
+    pose proof (vint_encode_length nanos). unfold i32_max. lia.
+Qed.
+
+Lemma mismatch_value ws t v : is_leaf v = true -> native_in t (ser_base_types (dyn_base v)) = false ->
+  ser_value ws t v = Err SE_MismatchedType.
+Proof.
+  destruct v; try discriminate; intros _; destruct t as [n| | | | | |]; try reflexivity; destruct n; try reflexivity; discriminate.
+Qed.
+
+Lemma agrees_set_value ws c : agrees ws (set_value c) (w_set_value ws c).
+Proof.
+  unfold agrees, set_value, w_set_value. destruct (i32_max <? blen c); [reflexivity|]. destruct ws; reflexivity.
+Qed.
+Lemma agrees_unchecked ws c : blen c <= i32_max -> agrees ws (Ok c) (w_set_value ws c).
+Proof.
+  intros H. unfold agrees, w_set_value. apply N.ltb_ge in H. rewrite H. destruct ws; reflexivity.
+Qed.
+Lemma agrees_decimal ws c : agrees ws (finish ws c) (w_builder ws (w_append c)).
+Proof. apply (agrees_builder ws (Ok c) (w_append c)); [apply frame_append|reflexivity]. Qed.
+
+Lemma agrees_leaf ws t v : is_leaf v = true -> small_leaf v = true ->
+  agrees ws (ser_value ws t v) (ser_leaf (dyn_base v) ws t v).
+Proof.
+  intros Hl Hs. unfold ser_leaf. destruct (native_in t (ser_base_types (dyn_base v))) eqn:En; cbn [negb].
+  2:{ rewrite (mismatch_value ws t v Hl En). reflexivity. }
+  rewrite (leaf_payload_ok v Hl). cbn [negb].
+  destruct (leaf_bytes v) as [c|] eqn:Ec; [|destruct v; discriminate].
+  pose proof (leaf_len_ok v c Hl Hs Ec) as Hlen.
+  destruct v; try discriminate Hl; destruct t as [n| | | | | |]; try discriminate En; destruct n; try discriminate En;
+    cbn [leaf_bytes] in Ec; apply some_inj in Ec; subst c; cbn [ser_value dyn_base uses_builder];
+    first [apply agrees_set_value | apply agrees_decimal | apply agrees_unchecked; exact Hlen].
+Qed.
+
+(* the bridge *)
+Theorem ser_dyn_value t : forall ws v, all_leaves small_leaf v = true ->
+  agrees ws (ser_value ws t v) (ser_dyn ws t v).
+Proof.
+  induction t as [n|e IHe|e IHe|k e IHk IHe|ts IHts|ks' nm' fts IHfs|e d IHe] using ctype_ind'; intros ws v Hv.
+  all: destruct (is_leaf v) eqn:El;
+    [rewrite ser_dyn_leaf by exact El; apply agrees_leaf; [exact El|destruct v; try discriminate El; exact Hv]|].
+  all: destruct v; try discriminate El.
+  all: try (cbn [ser_dyn ser_value]; destruct (supports_empty _); unfold agrees, w_set_value; cbn; destruct ws; reflexivity).
+  all: try (cbn [ser_dyn ser_value]; reflexivity).
+  all: cbn [all_leaves] in Hv.
+  all: try (cbn [ser_dyn ser_value]; rewrite forallb_forall in Hv; apply agrees_sequence;
+            intros x Hx; split; [apply frame_ser_dyn|apply IHe; auto]).
+  all: try (cbn [ser_dyn ser_value]; rewrite forallb_forall in Hv;
+            replace (match type_size e with Some _ => true | None => false end) with (is_some (type_size e)) by reflexivity;
+            apply agrees_vector; intros x Hx; split; [apply frame_ser_dyn|apply IHe; auto]).
+  - cbn [ser_dyn ser_value]. rewrite forallb_forall in Hv. apply agrees_mapping. intros kv Hkv.
+    specialize (Hv kv Hkv). apply andb_prop in Hv as [H1 H2].
+    split; (split; [apply frame_ser_dyn|]); [apply IHk|apply IHe]; auto.
+  - rewrite ser_dyn_tuple, ser_value_tuple. destruct (_ <? _)%nat; [reflexivity|].
+    apply agrees_builder; [apply frame_dyn_tuple_go, Forall_forall; intros; apply frame_ser_dyn|].
+    apply agrees_tuple_go; [|exact Hv]. eapply Forall_impl; [|exact IHts]. intros a Ha x Hx. now apply Ha.
+  - rewrite ser_dyn_udt, ser_value_udt. destruct (negb _); [reflexivity|].
+    apply agrees_builder; [apply frame_dyn_udt_go, Forall_forall; intros; apply frame_ser_dyn|].
+    apply agrees_udt_go; [eapply Forall_impl; [|exact IHfs]; intros a Ha x Hx; now apply Ha|].
+    intros x Hx. rewrite forallb_forall in Hv. apply in_map_iff in Hx as ([m z] & Hz & Hin). cbn [snd] in Hz. subst z.
+    exact (Hv _ Hin).
 Qed.
